@@ -135,6 +135,10 @@ pub fn allowed(d: &Doc, k: usize, hk: HK) -> usize {
         TK::Comment => {
             if complete {
                 0
+            } else if !d.bytes[tok.start..].starts_with(b"<!--") {
+                // bogus comment: consumed as it comes, except while `<!` + up to 7 bytes could
+                // still become `<!DOCTYPE` / `<![CDATA[` (and, with handlers, the whole token)
+                if lexing || off <= 9 { off } else { 0 }
             } else if lexing || off <= 4 {
                 off
             } else {
